@@ -386,6 +386,12 @@ class GlueSerializer(object):
                                  " %r of type %s" % (obj, type(obj)))
 
     def _disambiguate(self, name):
+
+        # Names of objects should not be mistaken for string literals (which
+        # are stored with a st__ prefix) when loading
+        if name.startswith('st__'):
+            name = 'obj_' + name
+
         if name not in self._objs:
             return name
 
